@@ -322,7 +322,7 @@ func bodyHandshakeCancel(m cancelMode, helloAfter time.Duration, readTimeout tim
 
 // C10 — cancellation ends the query promptly, sends Cancel and closes the connection.
 func C10(c *vk.Ctx) {
-	c.Rule("scenarios {select, insert, streamed insert, LZ4 select, select with telemetry, insert with stalled writes, select during which the server falls silent inside a Data block or inside the nested part of an exception chain (also on a transport that hands over one byte per read, so that every earlier body read armed a deadline of its own), select and insert during which the server falls silent or keeps reporting progress once a second without ever ending the stream, select on a transport whose Close reports an error, select and insert (also with a silent server) on a client whose previous query ended with a server exception or ended well, handshake with prompt / late / no hello} x {explicit cancel() from a canceller thread placed by the scheduler at every point of every other thread, context deadline at fake 1 s and 5 s, explicit cancel of a context that also carries a 1 h deadline} x read timeout {3 s, 100 ms} x all schedules (incl. clock steps) up to the deviation bound. distinct_nontrivial = executions.")
+	c.Rule("scenarios {select, insert, streamed insert, LZ4 select, select with telemetry, insert with stalled writes, select during which the server falls silent inside a Data block or inside the nested part of an exception chain (also on a transport that hands over one byte per read, so that every earlier body read armed a deadline of its own), select and insert during which the server falls silent or keeps reporting progress once a second without ever ending the stream, select on a transport whose Close reports an error, select and insert (also with a silent server) on a client whose previous query ended with a server exception or ended well, handshake with prompt / late / no hello} x {explicit cancel() from a canceller thread placed by the scheduler at every point of every other thread, context deadline at fake 1 s and 5 s, explicit cancel of a context that also carries a 1 h deadline, or a 1 s deadline that passes while the call is still winding down} x read timeout {3 s, 100 ms} x all schedules (incl. clock steps) up to the deviation bound. distinct_nontrivial = executions.")
 	quick := c.Quick()
 	bound := 1
 	if !quick {
@@ -404,7 +404,9 @@ func C10(c *vk.Ctx) {
 				}
 				return q, []Step{steps[0], steps[1], {Name: "partial", Send: b}}
 			}
-			for _, m := range []cancelMode{{"cancel", 0, 0}, {"deadline1s", time.Second, 0}, {"deadline5s", 5 * time.Second, 0}} {
+			// (cancel+deadline1s: cancelled explicitly under a context whose own deadline passes
+			// before the stalled read gives up — the error must match the cause that came first)
+			for _, m := range []cancelMode{{"cancel", 0, 0}, {"deadline1s", time.Second, 0}, {"deadline5s", 5 * time.Second, 0}, {"cancel+deadline1s", 0, time.Second}} {
 				id := fmt.Sprintf("%s/%s", ps.name, m.name)
 				jobs = append(jobs, job{id, body10s(ps, m, 0, false, 99), bound, true, "C10/" + ps.name})
 			}
